@@ -501,7 +501,7 @@ def run_termination(case):
     system = st.RDSystem(net, space, state=state)
     dt = 0.01
     policy = r.choice(["on_t_sample", "on_t_sample", "on_interval", "on_iteration", "no_sampling"])
-    script = st.RDScript(system, t_sample=[0, 0.05], time_step=dt, sampling_policy=policy, sampling_interval=r.choice([0.01, 0.02, 0.5]),
+    script = st.RDScript(system, t_sample=r.choice([[0, 0.05], [0, 0.05], [0], [0.02]]), time_step=dt, sampling_policy=policy, sampling_interval=r.choice([0.01, 0.02, 0.5]),
                          rng_seed=r.randrange(2 ** 31), init_state_processing=isp)
     prog = case.get("progress_file")
     if prog:
@@ -513,7 +513,10 @@ def run_termination(case):
         if prog:
             with open(prog, "w") as f:
                 f.write("simulate_script (policy %s)" % policy)
-        out = st.simulate_script(script, e)
+        # (with and without the progress display, whose loop is a code path of its own)
+        import contextlib, io
+        with contextlib.redirect_stdout(io.StringIO()):
+            out = st.simulate_script(script, e, print_progress=r.random() < 0.5)
         return {"iterations": None, "nsamples": out.nsamples(), "family": fam, "isp": isp, "kind": kind_, "policy": policy}
     e.setup(script)
     if prog:
